@@ -1,24 +1,14 @@
-/-
-Canonical-text tie (tools/canon.py): every hand-mirrored item of /repo still has the text the model was written
-against. One theorem per item, so that ./check can tell which properties an edit concerns.
--/
-import Qvnt.Generated.Canon
-
-namespace Qvnt.GenCanon
-open Qvnt.Generated
-
-theorem int_struct_canon : canon_int_struct = true := by decide
-theorem macro_struct_canon : canon_macro_struct = true := by decide
-theorem macro_argument_name_canon : canon_macro_argument_name = true := by decide
-theorem macro_new_canon : canon_macro_new = true := by decide
-theorem macro_process_canon : canon_macro_process = true := by decide
-theorem macro_process_nested_canon : canon_macro_process_nested = true := by decide
-theorem parse_context_canon : canon_parse_context = true := by decide
-theorem parse_eval_extended_canon : canon_parse_eval_extended = true := by decide
-theorem sym_struct_canon : canon_sym_struct = true := by decide
-theorem sym_new_canon : canon_sym_new = true := by decide
-theorem sym_init_canon : canon_sym_init = true := by decide
-theorem sym_get_class_canon : canon_sym_get_class = true := by decide
-theorem sym_get_probabilities_canon : canon_sym_get_probabilities = true := by decide
-
-end Qvnt.GenCanon
+/- Umbrella of the canonical-text tie (tools/canon.py): one module per item under Lemmas/Canon. -/
+import Qvnt.Lemmas.Canon.IntStruct
+import Qvnt.Lemmas.Canon.MacroStruct
+import Qvnt.Lemmas.Canon.MacroArgumentName
+import Qvnt.Lemmas.Canon.MacroNew
+import Qvnt.Lemmas.Canon.MacroProcess
+import Qvnt.Lemmas.Canon.MacroProcessNested
+import Qvnt.Lemmas.Canon.ParseContext
+import Qvnt.Lemmas.Canon.ParseEvalExtended
+import Qvnt.Lemmas.Canon.SymStruct
+import Qvnt.Lemmas.Canon.SymNew
+import Qvnt.Lemmas.Canon.SymInit
+import Qvnt.Lemmas.Canon.SymGetClass
+import Qvnt.Lemmas.Canon.SymGetProbabilities
